@@ -68,6 +68,8 @@ NEEDED = {
  'C03-10': 'fraction-directed roots: deposits and debts re-forged to end in a chosen fraction of a native unit (just above a whole number, either side of the 0.0001 dust threshold, one half, just below the next whole number)',
  'C03-11': 'root REM (rewards switched on for both sides, ten days of unclaimed rewards pending) in C03 and C02; a refused withdraw-all is re-sent with its bank still among the risk accounts',
  'C03-12': 'vault-side clause: what leaves the liquidity vault on a withdraw / borrow is at most the position debit',
+ 'C04-10': 'isolated-tier matrix: owing bank X, borrow from bank Y for every ordered pair of three isolated-tier and three ordinary banks (isolated address above / below)',
+ 'C04-11': 'e-mode variant with the collateral tag requested twice, non-adjacent, in the first debt bank (falls back to the de-duplicated table when refused); second debt bank without a table',
  'C20-7': 'reserve-composition sweep: total liquidity = available + borrowed - fees with fees above the borrowed amount, fractional parts, through the real Kamino / Solend total-liquidity functions and conversions',
  'C08-7': '(caught by the sibling check C10: two start instructions in one transaction)',
  'C08-8': "C12 'nobody' cells: the permissionless staked-settings propagation aimed at ordinary banks",
